@@ -280,11 +280,14 @@ def run (P : Params) (O : Oracles) : State := runN P O P.maxIter
 def bestIterOf (s : State) : Option Nat := bestIter s.gaps
 /-- `last_iter_ = len(Qs) - 1` -/
 def lastIterOf (s : State) : Int := EGLoopGen.lastIter s.qs.length
+/-- `for h_idx in self._hs.index: if h_idx not in self.weights_.index: self.weights_.at[h_idx] = 0.0` -/
+def padTo (n : Nat) (q : List Rat) : List Rat := q ++ List.replicate (n - q.length) 0
+
 /-- `weights_ = Qs[best_iter_]`, then zero padding to every stored classifier -/
 def weightsOf (s : State) : List Rat :=
   match bestIterOf s with
   | none => []
-  | some b => (List.range s.hs.length).map (fun i => (s.qs.getD b []).getD i 0)
+  | some b => padTo s.hs.length (s.qs.getD b [])
 
 /-! ### driver glue -/
 
